@@ -496,7 +496,7 @@ func TestC02(t *testing.T) {
 		}()
 	}
 	wg.Wait()
-	code := run.Finish("fault enumeration in virtual time: each base exchange (sizes 0..200000 in both directions, three close orders, half-close then data, closed receive window in exact-fit / overshoot / reverse / both timings, IPv6+SACK variants) is run fault-free to enumerate its packet identities (direction, flags, relative sequence, length; pure ACKs by ack number and window); then, per class (SYN, SYN-ACK, handshake ACK, data, ACK, window update, FIN), the first/middle/last and PRNG-chosen identities (thorough: all when <= 40) are dropped once and twice, and PRNG-chosen pairs are dropped together. Verdict per run: completed (all bytes then end-of-stream on both sides, closed-state observables right) or explicit error by 30 virtual minutes; anything else is a stall. plus PRNG-configured scenarios with random per-packet drop/duplicate/delay/replay on both directions (as in C01), judged for silent stalls only (quiet for more than 6 virtual minutes without completion or explicit error). distinct = distinct (base, drop plan) + random scenarios Later additions: Further base exchanges: receive buffer enlarged at a closed window; the window's right edge crossing 2^32 / 2^31 with its left edge below (steered ISS); link refusal of packets in the random scenarios.",
+	code := run.Finish("fault enumeration in virtual time: each base exchange (sizes 0..200000 in both directions, three close orders, half-close then data, closed receive window in exact-fit / overshoot / reverse / both timings, IPv6+SACK variants) is run fault-free to enumerate its packet identities (direction, flags, relative sequence, length; pure ACKs by ack number and window); then, per class (SYN, SYN-ACK, handshake ACK, data, ACK, window update, FIN), the first/middle/last and PRNG-chosen identities (thorough: all when <= 40) are dropped once and twice, and PRNG-chosen pairs are dropped together. Verdict per run: completed (all bytes then end-of-stream on both sides, closed-state observables right) or explicit error by 30 virtual minutes; anything else is a stall. plus PRNG-configured scenarios with random per-packet drop/duplicate/delay/replay on both directions (as in C01), judged for silent stalls only (quiet for more than 6 virtual minutes without completion or explicit error). distinct = distinct (base, drop plan) + random scenarios Later additions: After an orderly close with no closing packet lost both endpoints must stay silent for a further virtual minute (an endpoint that still retransmits its FIN never reached the closed state). Further base exchanges: receive buffer enlarged at a closed window; the window's right edge crossing 2^32 / 2^31 with its left edge below (steered ISS); link refusal of packets in the random scenarios.",
 		[]string{"'eventually' is restated as 'by 30 minutes of virtual time' (longest legitimate silence: the RTO ladder, about 3.5 min)", "buffer sizes stay within the stack's own limits (>= 4096)", "closed-state observables are judged only when no FIN/ACK of the exchange was dropped"})
 	os.Exit(code)
 }
